@@ -364,8 +364,14 @@ def main(argv=None):
     procs = []
     for shard in range(nshards):
         out_path = os.path.join(tmpdir, f'shard{shard}.json')
-        cmd = [
-            sys.executable,
+        cmd = [sys.executable]
+        if os.environ.get('VERIF_COVERAGE'):
+            # measurement aid (tools/coverage_map.sh): line+branch coverage of the library under the generated cases
+            from .common import REPO  # pylint: disable=import-outside-toplevel
+
+            cmd += ['-m', 'coverage', 'run', '-p', '--branch', '--data-file', os.path.join(os.environ['VERIF_COVERAGE'], f'.coverage.{prop}'),
+                    f'--include={os.path.realpath(REPO)}/disk_objectstore/*']
+        cmd += [
             os.path.join(VERIF, 'check.py'),
             prop,
             '--tier',
